@@ -50,6 +50,14 @@ def leaf_script(kind, i, key_x):
         return b'\xab' + P(key_x) + b'\xac'                        # OP_CODESEPARATOR <key> OP_CHECKSIG: the digest commits to the separator's position (0)
     if kind == 'big':
         return b'\x75' + P(bytes([i % 256]) * 300) + b'\x75\x51'
+    if kind in ('prefix8a', 'prefix8b'):
+        # two leaves whose BIP341 leaf hashes agree in their first 8 bytes (found by native/tools/prefix_collide.cpp, kept in corpus/c06_prefix8.json): as siblings,
+        # their order is decided by the NINTH byte - an ordering that looks at a prefix only gets it wrong one way round
+        import json, os
+        j = json.load(open(os.path.join(os.path.dirname(os.path.dirname(os.path.dirname(os.path.abspath(__file__)))), 'corpus', 'c06_prefix8.json')))
+        a, b = bytes.fromhex(j['script_a']), bytes.fromhex(j['script_b'])
+        assert a != b and V.tapleaf(0xc0, a)[:8] == V.tapleaf(0xc0, b)[:8], 'corpus/c06_prefix8.json is not a prefix collision'
+        return a if kind == 'prefix8a' else b
     if kind == 'nosig':
         return b'\x51'                                               # OP_1: consumes nothing - the signature slot tap always adds stays on the stack (known finding)
     if kind == 'empty':
@@ -207,7 +215,7 @@ def check_case(c, ctx):
         if rb.timed_out:
             raise core.Inconclusive()
         last = rb.out.strip().splitlines()[-1:] if rb.out.strip() else []
-        want_top = [b'01'] if kind in ('checksig', 'codesep', 'same', 'args', 'big', 'zero00', 'ffff') else [b'%02x' % (1 + idx % 16)]
+        want_top = [b'01'] if kind in ('checksig', 'codesep', 'same', 'args', 'big', 'zero00', 'ffff', 'prefix8a', 'prefix8b') else [b'%02x' % (1 + idx % 16)]
         if kind == 'empty' and last and int(last[0] or b'0', 16) != 0:
             want_top = last          # an empty leaf leaves the (non-zero) placeholder / signature item: any single true item
         if kind == 'nosig':
@@ -295,7 +303,7 @@ def check_keypath(c, ctx):
         ctx.inconclusive += 1
 
 
-KIND_SETS = [['nosig'], ['nosig', 'drop'], ['empty'], ['empty', 'drop'], ['drop', 'empty', 'checksig'], ['drop'], ['same'], ['drop', 'same', 'same'], ['checksig', 'drop'], ['args', 'drop'], ['checksig'], ['big', 'drop'], ['drop', 'checksig', 'args', 'same'], ['zero00'], ['zero00'], ['zero00', 'ffff'], ['ffff', 'drop'], ['codesep'], ['codesep', 'drop']]
+KIND_SETS = [['prefix8a', 'prefix8b'], ['prefix8b', 'prefix8a'], ['drop', 'prefix8b', 'prefix8a', 'same'], ['nosig'], ['nosig', 'drop'], ['empty'], ['empty', 'drop'], ['drop', 'empty', 'checksig'], ['drop'], ['same'], ['drop', 'same', 'same'], ['checksig', 'drop'], ['args', 'drop'], ['checksig'], ['big', 'drop'], ['drop', 'checksig', 'args', 'same'], ['zero00'], ['zero00'], ['zero00', 'ffff'], ['ffff', 'drop'], ['codesep'], ['codesep', 'drop']]
 PREFIXES = [None, None, 'bc', 'tb', 'bcrt', 'xyz', 'a', 'x1', 'tb1', 'bc11', 'a1b', '1x', 'q~!1']
 
 
@@ -310,6 +318,19 @@ def w_grid(ctx, wid, seed, pairs):
             if len(ctx.violations) < 2:
                 ctx.violations.append(dict(campaign='grid', why=v.why, case=case_json(c), observed=v.observed, expected=v.expected, refails=3))
             return
+
+
+def w_prefix8(ctx, wid, seed):
+    """sibling leaves whose hashes agree in their first 8 bytes, both ways round, every index (directed: the grid only meets them by the luck of its rule)"""
+    for n, kinds in ((2, ['prefix8a', 'prefix8b']), (2, ['prefix8b', 'prefix8a']), (4, ['drop', 'same', 'prefix8b', 'prefix8a']), (4, ['prefix8a', 'prefix8b', 'drop', 'same']), (3, ['prefix8b', 'prefix8a', 'drop'])):
+        for idx in range(n):
+            c = build_case(n, idx, kinds, 11 + n, None)
+            ctx.count('prefix8-siblings')
+            try:
+                check_case(c, ctx)
+            except Violation as v:
+                ctx.violations.append(dict(campaign='prefix8', why=v.why, case=case_json(c), observed=v.observed, expected=v.expected, refails=3))
+                return
 
 
 @st.composite
@@ -342,7 +363,7 @@ def run(tier, t0):
     pairs = [(n, i) for n in range(1, maxn + 1) for i in range(n)]
     chunks = [pairs[k::W] for k in range(W)]
     nr, nk = (90, 40) if tier == 'quick' else (4000, 1200)
-    tasks = [(w_grid, dict(pairs=ch)) for ch in chunks] + [(w_random, dict(examples=nr)) for _ in range(W // 2)] + [(w_keypath, dict(examples=nk)) for _ in range(W // 4)] + [(w_prefix_length, dict())]
+    tasks = [(w_grid, dict(pairs=ch)) for ch in chunks] + [(w_random, dict(examples=nr)) for _ in range(W // 2)] + [(w_keypath, dict(examples=nk)) for _ in range(W // 4)] + [(w_prefix_length, dict()), (w_prefix8, dict())]
     m = core.parallel(PID, tasks)
     m.exhaustive = False
     return core.finish(PID, tier, m, RULE, t0, min_nontrivial=120 if tier == 'quick' else 2000, extra=dict(grid='every (n, index) with 1 <= n <= %d: %d pairs' % (maxn, len(pairs))),
